@@ -64,6 +64,34 @@ CLAIMS["C08"] = dict(
     technique="effect / def-use / typestate analyses on AST and abstract execution (AFF, driver interpreter)",
     ref="DESIGN.md section 4 C08")
 
+CLAIMS["C11"] = dict(
+    text=("Whole statement in exact arithmetic for the 1D schemes: the slice code of fvm1d, mesh1d and every 1D "
+          "reconstruction class is decoded by an access-relation (stencil) engine into piecewise relations valid for all "
+          "mesh sizes; extrapol1 = adjacent cells, constant exactness on every face range incl. the periodic seam, linear "
+          "exactness on arbitrary face distributions (k-schemes with symbolic kappa, MUSCL through the limiter axioms "
+          "proved under C12, limiter arguments = the two face gradients of the extrapolated cell in mirror-twin order), and "
+          "the residual of linear convection on the uniform periodic mesh equals the circulant kappa stencil for the "
+          "generic cell and each cell next to the seam, both convection signs, nominal kappa per class. Not decided: "
+          "round-off; cells adjacent to non-periodic boundaries (excluded by the statement)."),
+    technique="access-relation (stencil) analysis of numpy slice code + algebraic GVN on the decoded relations",
+    ref="DESIGN.md section 4 C11, section 2.6")
+CLAIMS["C17"] = dict(
+    text=("Whole statement in real arithmetic: prim2cons/cons2prim round trips and every registered variable of every "
+          "model (evaluated on q = prim2cons(W) with the code's own conversion) are decided equal to their definitions as "
+          "ring identities with generalised exponents in Q(gamma); rank typing gives one value per cell for scalars in 1D "
+          "and 2D; registry dispatch passes conservative data. The signed 1D mach is a known finding. Not decided: "
+          "cancellation error over 12 decades."),
+    technique="AST lowering + algebraic GVN (ring identities with symbolic exponents) + vector/scalar rank typing",
+    ref="DESIGN.md section 4 C17")
+CLAIMS["C18"] = dict(
+    text=("Whole statement: each model's timestep() equals cfl*dx/spectral radius as a ring identity for all states "
+          "(specification table |a|, |u|, |u|+sqrt(gh), |V|+sqrt(gamma p/rho)), agrees with the model's own asound and "
+          "velocitymag variables, is element-wise (independent of other cells) and positive; the 2D cell size is "
+          "dx*dy/(dx+dy); the driver recomputes it from the current state every iteration, takes the minimum over cells "
+          "for the global step and passes the array iff the dtlocal directive is set (abstract interpretation of _solve)."),
+    technique="algebraic GVN of timestep kernels + sign analysis + abstract interpretation of the driver",
+    ref="DESIGN.md section 4 C18")
+
 NA_REASONS = {
     "C09": ("runtime invariant of trajectories (range and total variation after every step for all data); its "
             "code-shape premises are owned and decided by C02, C05, C11, C12, C18; the remaining step (flux "
